@@ -280,6 +280,14 @@ def make(kind, rng, norb, nelec, **opt):
                 dets = [aufbau] + chosen
             else:
                 dets = [top, aufbau] + [d for d in chosen if d != top][: max(0, nd - 2)]
+        elif reference == "split":
+            # the reference has DIFFERENT alpha and beta occupations although the electron counts are equal (an open-shell-singlet
+            # leading determinant): nothing that is computed for one spin may be reused for the other
+            cand = [d for d in others if d[0] != d[1]]
+            if na != nb or not cand:
+                raise ValueError("no split reference available")
+            d0 = rng.choice(cand)
+            dets = [d0, aufbau] + [d for d in chosen if d != d0][: max(0, nd - 2)]
         else:
             raise ValueError(reference)
         if opt.get("single"):
